@@ -18,18 +18,22 @@
      * the node header's own encoding (C13): the header is a record; disk pointers inside chunks and tables ARE encoded
        (AdfCodec.dp_enc / dp_dec) and boundary tags ARE bytes, because the defects of this area live there.
 
-   Integers are Z.  The one place where the property depended on a C variable being unsigned is ADF_Write_Data's count
-   of remaining bytes (repaired by /repo d6f9e64): [c_unsigned] selects the old text, with explicit wrap mod 2^64.
-   Four further switches follow repairs PROPOSED in notes/C02c.md (all false = the code as it is):
-     c_fix_wall    ADF_Write_All_Data, several chunks: the chunk is rewritten with its own size, not with the number of
-                   bytes that happen to go into it (today a shrunk rewrite moves the chunk's end tag inwards while the
-                   table keeps the old size)
-     c_fix_wblock  ADF_Write_Block_Data, a further chunk is added: offset of the block inside the new chunk =
-                   start_byte - chunk_end_byte (today: start_byte - <size of the new chunk>)
-     c_fix_zero    ADFI_write_data_chunk(NULL): zero fill of more than 4096 bytes covers the chunk (today: the rest of the
-                   first block plus ONE byte, then the same second block over and over)
-     c_fix_rblock  ADF_Read_Block_Data, several chunks holding less than the block asked for: the rest of the caller's
-                   buffer is zeroed over block_bytes - bytes_read bytes (today: total_bytes - bytes_read, past its end) *)
+   Integers are Z.  The code is transcribed AS IT IS at /repo 5177c7b ([Cur]).  Five one-commit changes of this week are
+   kept as switches of the record [cfg], each [true] in [Cur]; turning one off gives the text before that commit, used only
+   for the historical *_old_refuted witnesses and by the check to recognise a regression:
+     c_signed      d6f9e64  ADF_Write_Data counts the remaining bytes in a signed variable (before: cgulong_t, tested with
+                            "<= 0", explicit wrap mod 2^64 here)
+     c_fix_wall    b21b08d  ADF_Write_All_Data, several chunks: a chunk is rewritten with its own size (before: with the number
+                            of bytes that happen to go into it -- a shrunk rewrite moved the chunk's end tag inwards while
+                            the table kept the old size)
+     c_fix_wblock  3f8f7e0  ADF_Write_Block_Data, a further chunk is added: offset of the block inside the new chunk =
+                            start_byte - chunk_end_byte (before: start_byte - <size of the new chunk>)
+     c_fix_zero    5177c7b  ADFI_write_data_chunk(NULL): the zero fill of more than 4096 bytes covers the chunk (before: the
+                            rest of the first block plus ONE byte -- 4097 bytes read from the 4096-byte block_of_00 when the
+                            data start on a block boundary --, then the same second block over and over)
+     c_fix_rblock  5c54229  ADF_Read_Block_Data, several chunks holding less than the block asked for: the rest of the caller's
+                            buffer is zeroed over block_bytes - bytes_read bytes (before: total_bytes - bytes_read, past its
+                            end) *)
 From Coq Require Import ZArith List Bool Lia FMapPositive.
 From CgnsV Require Import ListX AdfCodec Hyperslab.
 Import ListNotations.
@@ -53,10 +57,13 @@ Definition MAXSZ : Z := 2 ^ 44.                    (* 2^32 blocks of 4096 bytes:
 Definition TW64 : Z := 2 ^ 64.
 Definition toS (x : Z) : Z := let y := x mod TW64 in if y <? 2 ^ 63 then y else y - TW64.
 
-Record cfg := mkCfg { c_unsigned : bool; c_fix_wall : bool; c_fix_wblock : bool; c_fix_zero : bool; c_fix_rblock : bool }.
-Definition Old : cfg := mkCfg true false false false false.      (* before /repo d6f9e64 *)
-Definition Cur : cfg := mkCfg false false false false false.     (* /repo 59a38ab *)
-Definition Fixed : cfg := mkCfg false true true true true.  (* Cur + the four repairs of notes/C02c.md *)
+Record cfg := mkCfg { c_signed : bool; c_fix_wall : bool; c_fix_wblock : bool; c_fix_zero : bool; c_fix_rblock : bool }.
+Definition Cur : cfg := mkCfg true true true true true.                   (* /repo 5177c7b *)
+Definition Before_d6f9e64 : cfg := mkCfg false true true true true.       (* Cur with that one commit reverted, each *)
+Definition Before_b21b08d : cfg := mkCfg true false true true true.
+Definition Before_3f8f7e0 : cfg := mkCfg true true false true true.
+Definition Before_5177c7b : cfg := mkCfg true true true false true.
+Definition Before_5c54229 : cfg := mkCfg true true true true false.
 
 (* ------------------------------------------------------------------ data types *)
 Inductive dtype := MT | C1 | B1 | I4 | U4 | R4 | I8 | U8 | R8 | X4 | X8.
@@ -480,12 +487,12 @@ Definition elem_ptr (lk : look) (rel : Z) : out ptr :=
 
 (* ------------------------------------------------------------------ ADF_Write_Data *)
 (* "looping on the data-chunks, look at the size of the chunks": total_bytes -= current_bytes ; if (total_bytes <= 0) break
-   -- with the count signed (now) or unsigned (before d6f9e64: x <= 0 iff x = 0, no underflow stop) *)
+   -- with the count signed (now) or unsigned (before d6f9e64: x <= 0 iff x = 0, no stop on underflow) *)
 Fixpoint wdata_count (tb : list (ptr * ptr)) (total : Z) : Z :=
   match tb with
   | [] => total
   | c :: r =>
-      let t := if c_unsigned cf then (total - csize c) mod TW64 else total - csize c in
+      let t := if c_signed cf then total - csize c else (total - csize c) mod TW64 in
       if t <=? 0 then t else wdata_count r t
   end.
 
@@ -559,7 +566,7 @@ Definition write_strided (h : hdr) (d : disk) (al : list ptr) (sel : list (Z * Z
     let rest := wdata_count tb total in
     if rest >? 0 then
       (* 2 * TAG_SIZE + DISK_POINTER_SIZE + total_bytes as the cglong_t argument of ADFI_file_malloc *)
-      let sz := if c_unsigned cf then toS (2 * TAG_SIZE + DPS + rest) else 2 * TAG_SIZE + DPS + rest in
+      let sz := if c_signed cf then 2 * TAG_SIZE + DPS + rest else toS (2 * TAG_SIZE + DPS + rest) in
       bindR (alloc al sz d) (fun pa d1 =>
       let p := fst pa in
       bindO (new_entry_end p rest) d1 (fun e =>
@@ -766,7 +773,7 @@ Definition alloc_ok (s : st) (o : op) (al : list ptr) : bool :=
 Definition dims_ok (dims : list Z) : bool :=
   (lenZ dims <=? 12) && forallb (fun v => 1 <=? v) dims && (prodZ dims * 16 <? 2 ^ 40).
 
-(* the two situations the code as it is gets wrong (both vanish with the repairs) *)
+(* the two situations the code got wrong before b21b08d / 3f8f7e0 (identically true now) *)
 Definition wall_safe (s : st) : bool :=
   c_fix_wall cf ||
   match chunks_of (s_h s) (s_d s) with
